@@ -10,7 +10,7 @@ from mc import alphabets as A
 from mc import refsched, seqx
 from mc.evidence import Result, Violation
 from mc.refsched import basis_of
-from mc.worlds import World, apply, corner, make_pulse, programmed_post
+from mc.worlds import programmed_phase, World, apply, corner, make_pulse, programmed_post
 
 TWO_PI = 2 * math.pi
 
@@ -81,7 +81,8 @@ def pulse_phase(ctx):
     op = ctx.op
     k = op[0]
     if k == "add":
-        name, prog = op[2], float(make_pulse(op[1]).phase)
+        prog = programmed_phase(op[1])
+        name, prog = op[2], (float(make_pulse(op[1]).phase) if prog is None else prog)
     elif k == "eom_pulse" and not op[6]:
         name, prog = op[1], op[3]
     else:
